@@ -63,6 +63,11 @@ func putDecl(space string) string {
 }
 
 func walkAttributes(elem *etree.Element) {
+	walkAttributesNS(elem, nil)
+}
+
+// rendered holds the namespace declarations that the ancestors of elem emit
+func walkAttributesNS(elem *etree.Element, rendered map[string]string) {
 	// remove unused spaces and push ones this element doesn't use down to child elements
 	for i := 0; i < len(elem.Attr); {
 		attr := elem.Attr[i]
@@ -70,6 +75,23 @@ func walkAttributes(elem *etree.Element) {
 			pushDown(elem, elem, space, putDecl(space), attr.Value)
 			elem.Attr = append(elem.Attr[:i], elem.Attr[i+1:]...)
 			continue
+		}
+		i++
+	}
+	// a declaration that repeats what an ancestor already emits is superfluous,
+	// and so is xmlns="" when no default namespace is in effect
+	scope := make(map[string]string, len(rendered)+len(elem.Attr))
+	for k, v := range rendered {
+		scope[k] = v
+	}
+	for i := 0; i < len(elem.Attr); {
+		attr := elem.Attr[i]
+		if space, isDecl := getDecl(attr); isDecl {
+			if rendered[space] == attr.Value {
+				elem.Attr = append(elem.Attr[:i], elem.Attr[i+1:]...)
+				continue
+			}
+			scope[space] = attr.Value
 		}
 		i++
 	}
@@ -98,7 +120,7 @@ func walkAttributes(elem *etree.Element) {
 		token := elem.Child[i]
 		switch t := token.(type) {
 		case *etree.Element:
-			walkAttributes(t)
+			walkAttributesNS(t, scope)
 		case *etree.CharData, *etree.ProcInst:
 			// keep; only comments are dropped by canonicalization
 		default:
